@@ -62,11 +62,34 @@ func TestC04Stateful(t *testing.T) {
 			h.Mark("alias-domain-pre-registered")
 		}
 		decadePassed := false
+		gammaHandedOver := false
 		deletedIDs := map[string]bool{}
 		deletedNames := map[string]bool{}
 		steps := rapid.IntRange(1, 30).Draw(rt, "steps")
 		for s := 0; s < steps; s++ {
-			kind := rapid.SampledFrom([]string{"put", "put", "put", "put", "put", "put", "delete", "delete", "delete", "delete", "setEACL", "setEACL", "badput", "badput", "decade"}).Draw(rt, "kind")
+			kind := rapid.SampledFrom([]string{"put", "put", "put", "put", "put", "put", "delete", "delete", "delete", "delete", "setEACL", "setEACL", "badput", "badput", "decade", "handover"}).Draw(rt, "kind")
+			if kind == "handover" {
+				// the committee gives the pre-registered alias domain away (NNS transfer; the admin is cleared): from now
+				// on its records are a third party's to change. A container named by it can then be deleted only as a
+				// whole or not at all - never "successfully" with its NNS record left behind
+				gammaLive := false
+				for _, l := range m.live {
+					if l.alias == "gamma.container" {
+						gammaLive = true
+					}
+				}
+				if preGamma && !gammaHandedOver && !decadePassed && gammaLive {
+					o := w.c.Invoke(w.c.Both(), w.nns, "transfer", w.owners[1].ScriptHash(), []byte("gamma.container"), nil)
+					if b, ok := o.Bool(); !o.Halt || !ok || !b {
+						panic(chainkit.HarnessError{Msg: "c04: hand-over of gamma.container: " + o.String()})
+					}
+					gammaHandedOver = true
+					h.Op("the committee transfers gamma.container to o1")
+					h.Mark("alias-domain-handed-over")
+				}
+				w.compareRegistry(m, fmt.Sprintf("step %d", s))
+				continue
+			}
 			if kind == "decade" {
 				// alias domains are registered for ten years and never renewed: after that a named container
 				// keeps its alias string, its NNS record is unreachable, and deleting it must still remove everything
@@ -92,6 +115,10 @@ func TestC04Stateful(t *testing.T) {
 				b := rapid.SampledFrom(pool).Draw(rt, "blob")
 				if decadePassed && b.name != "" {
 					// (the zone of the aliases has expired as well: new names cannot be registered any more)
+					b = pool[0]
+				}
+				if gammaHandedOver && b.name == "gamma" {
+					// (the domain is somebody else's now: whether it may still name new containers is NNS business)
 					b = pool[0]
 				}
 				if preGamma && b.name == "gamma" && withAlpha {
@@ -186,6 +213,13 @@ func TestC04Stateful(t *testing.T) {
 				}
 			case "delete":
 				b := rapid.SampledFrom(pool).Draw(rt, "blob")
+				if gammaHandedOver && rapid.Bool().Draw(rt, "theOneNamedByTheForeignDomain") {
+					for _, l := range m.live {
+						if l.alias == "gamma.container" {
+							b = l.blob
+						}
+					}
+				}
 				k := hex(b.id)
 				if l := m.live[k]; preGamma && l != nil && l.alias == "gamma.container" && withAlpha {
 					signers = w.c.Both()
@@ -200,7 +234,16 @@ func TestC04Stateful(t *testing.T) {
 					w.expectNoRegistryEvents(o)
 					break
 				}
-				if withAlpha != o.Halt {
+				if gammaHandedOver && l.alias == "gamma.container" && withAlpha && !m.expired[l.alias] {
+					// set-valued on acceptance: NNS may refuse to drop the record (then the container stays fully live,
+					// checked below by the full comparison), or everything goes
+					h.Mark("delete-with-foreign-alias-domain")
+					if !o.Halt {
+						w.expectNoRegistryEvents(o)
+						h.Mark("delete-refused-by-nns")
+						break
+					}
+				} else if withAlpha != o.Halt {
 					fail("C04: delete of live %s alphabet=%v: got %s", b.label, withAlpha, o)
 				}
 				if o.Halt {
